@@ -22,6 +22,9 @@ pub enum Pol {
     Term(String, String),
     And(Box<Pol>, Box<Pol>),
     Or(Box<Pol>, Box<Pol>),
+    /// (root only) the policy is handed to the library as an `AccessPolicy` value built from its
+    /// public constructors instead of a string: no parser, hence no absorption of `x || *`.
+    Raw(Box<Pol>),
 }
 
 pub type Conj = Vec<(String, String)>;
@@ -35,6 +38,7 @@ impl Pol {
     /// `*` alone is the single empty conjunction.
     pub fn dnf(&self) -> Vec<Conj> {
         match self {
+            Pol::Raw(p) => p.dnf_raw(),
             Pol::All => vec![vec![]],
             Pol::Term(d, a) => vec![vec![(d.clone(), a.clone())]],
             Pol::And(l, r) => {
@@ -57,6 +61,33 @@ impl Pol {
                 }
                 let mut out = l;
                 out.extend(r);
+                out
+            }
+        }
+    }
+
+    /// DNF as `AccessPolicy::to_dnf` computes it on a hand-built value: plain distribution, a
+    /// broadcast operand of a disjunction stays a clause of its own.
+    pub fn dnf_raw(&self) -> Vec<Conj> {
+        match self {
+            Pol::Raw(p) => p.dnf_raw(),
+            Pol::All => vec![vec![]],
+            Pol::Term(d, a) => vec![vec![(d.clone(), a.clone())]],
+            Pol::And(l, r) => {
+                let (l, r) = (l.dnf_raw(), r.dnf_raw());
+                let mut out = vec![];
+                for x in &l {
+                    for y in &r {
+                        let mut c = x.clone();
+                        c.extend(y.iter().cloned());
+                        out.push(c);
+                    }
+                }
+                out
+            }
+            Pol::Or(l, r) => {
+                let mut out = l.dnf_raw();
+                out.extend(r.dnf_raw());
                 out
             }
         }
@@ -87,6 +118,7 @@ impl Pol {
     // prec: 0 = top / inside parentheses, 1 = operand of OR, 2 = operand of AND
     fn print_inner(&self, st: &mut u64, prec: u8, top: bool) -> String {
         let body = match self {
+            Pol::Raw(p) => return p.print_inner(st, prec, top),
             Pol::All => {
                 if top {
                     return format!("{}*{}", Self::sp(st), Self::sp(st));
@@ -126,6 +158,7 @@ impl Pol {
         match self {
             Pol::All | Pol::Term(..) => 1,
             Pol::And(l, r) | Pol::Or(l, r) => 1 + l.size() + r.size(),
+            Pol::Raw(p) => p.size(),
         }
     }
 }
